@@ -2,6 +2,7 @@ package server
 
 import (
 	"bytes"
+	"context"
 
 	api "github.com/osrg/gobgp/v4/api"
 	"github.com/osrg/gobgp/v4/pkg/apiutil"
@@ -97,4 +98,84 @@ func vMed(attrs []bgp.PathAttributeInterface) uint32 {
 		}
 	}
 	return 0
+}
+
+// C18 (defined sets through the API): a prefix set added with AddDefinedSet - entries may share a
+// prefix and differ in the mask-length range - is listed back by ListDefinedSet entry for entry; a
+// second AddDefinedSet for the same name appends, and DeleteDefinedSet of one entry removes exactly it.
+func VH_c18_api_prefix_set() {
+	fams := []bgp.Family{bgp.RF_IPv4_UC}
+	s := vServer(65000, fams)
+	go s.Serve()
+	ctx := context.Background()
+	prefixes := []string{"10.0.0.0/8", "192.168.0.0/16"}
+	ranges := [][2]uint32{{8, 16}, {24, 32}, {16, 24}}
+	type ent struct {
+		p        string
+		min, max uint32
+	}
+	mk := func(tag string) ent {
+		r := ranges[vChoice(tag+"_range", 3)]
+		return ent{prefixes[vChoice(tag+"_prefix", 2)], r[0], r[1]}
+	}
+	toAPI := func(l []ent) []*api.Prefix {
+		var o []*api.Prefix
+		for _, e := range l {
+			o = append(o, &api.Prefix{IpPrefix: e.p, MaskLengthMin: e.min, MaskLengthMax: e.max})
+		}
+		return o
+	}
+	first := []ent{mk("e1"), mk("e2")}
+	vAssume(first[0] != first[1])
+	err := s.AddDefinedSet(ctx, &api.AddDefinedSetRequest{DefinedSet: &api.DefinedSet{DefinedType: api.DefinedType_DEFINED_TYPE_PREFIX, Name: "ps1", Prefixes: toAPI(first)}})
+	vAssert(err == nil, "a well-formed prefix set is refused")
+	if err != nil {
+		return
+	}
+	list := func() []ent {
+		var got []ent
+		n := 0
+		err := s.ListDefinedSet(ctx, &api.ListDefinedSetRequest{DefinedType: api.DefinedType_DEFINED_TYPE_PREFIX, Name: "ps1"}, func(d *api.DefinedSet) {
+			n++
+			for _, p := range d.Prefixes {
+				got = append(got, ent{p.IpPrefix, p.MaskLengthMin, p.MaskLengthMax})
+			}
+		})
+		vAssert(err == nil && n == 1, "the prefix set cannot be listed back")
+		return got
+	}
+	same := func(got, want []ent) bool {
+		if len(got) != len(want) {
+			return false
+		}
+		used := make([]bool, len(got))
+		for _, w := range want {
+			found := false
+			for i, g := range got {
+				if !used[i] && g == w {
+					used[i], found = true, true
+					break
+				}
+			}
+			if !found {
+				return false
+			}
+		}
+		return true
+	}
+	vAssert(same(list(), first), "ListDefinedSet does not return the entries AddDefinedSet was given (entries that share a prefix included)")
+	// a second request for the same name appends
+	third := mk("e3")
+	vAssume(third != first[0] && third != first[1])
+	err = s.AddDefinedSet(ctx, &api.AddDefinedSetRequest{DefinedSet: &api.DefinedSet{DefinedType: api.DefinedType_DEFINED_TYPE_PREFIX, Name: "ps1", Prefixes: toAPI([]ent{third})}})
+	vAssert(err == nil, "appending to a prefix set is refused")
+	vAssert(same(list(), append(append([]ent(nil), first...), third)), "after a second AddDefinedSet the set is not the union of both requests")
+	// deleting one entry removes exactly it
+	err = s.DeleteDefinedSet(ctx, &api.DeleteDefinedSetRequest{DefinedSet: &api.DefinedSet{DefinedType: api.DefinedType_DEFINED_TYPE_PREFIX, Name: "ps1", Prefixes: toAPI(first[:1])}})
+	vAssert(err == nil, "deleting an entry of a prefix set is refused")
+	vAssert(same(list(), []ent{first[1], third}), "DeleteDefinedSet of one entry does not leave exactly the others")
+	if first[0].p == first[1].p {
+		vReach("shared_prefix")
+	}
+	vReach("end")
 }
